@@ -1,9 +1,181 @@
+import ScenicModel.Model.Solid
+import ScenicModel.Model.SolidGeo
+import ScenicModel.Gen.Solid
 import Driver.Util
-/-! line protocol for the C04 model (stub: replaced when the property's model is built) -/
+/-! line protocol for the C04 model (overlap / containment decision trees on the pass data regenerated
+from /repo, and the certificate checkers of the exact-rational geometry oracle) -/
 namespace Driver.C04
-open Driver
+open Driver Scenic.Solid Scenic.Gen
+
+def pBool (s : String) : Option Bool :=
+  if s == "1" then some true else if s == "0" then some false else none
+
+def pRats (ws : List String) : Option (List Rat) := ws.mapM parseRat
+
+def bit (b : Bool) : String := if b then "1" else "0"
+
+def v3 : List Rat → Option (V3 × List Rat)
+  | a :: b :: c :: rest => some ((a, b, c), rest)
+  | _ => none
+
+def box (l : List Rat) : Option (Box × List Rat) := do
+  let (c, l) ← v3 l
+  let (a1, l) ← v3 l
+  let (a2, l) ← v3 l
+  let (a3, l) ← v3 l
+  pure ({ c := c, a1 := a1, a2 := a2, a3 := a3 }, l)
+
+def v3s : Nat → List Rat → Option (List V3 × List Rat)
+  | 0, l => some ([], l)
+  | n + 1, l => do
+    let (v, l) ← v3 l
+    let (vs, l) ← v3s n l
+    pure (v :: vs, l)
+
+def takeN (n : Nat) (l : List Rat) : Option (List Rat × List Rat) :=
+  if l.length < n then none else some (l.take n, l.drop n)
+
+def natOf (q : Rat) : Option Nat := if q.den == 1 && 0 ≤ q.num then some q.num.toNat else none
+
+def isect (ws : List String) : Option String := do
+  match ws with
+  | [cd, cs, co, ss, so, pd, is_, io, ps, po, bb, col, cvs, cvo, bs, bo, sho, ohs, be] =>
+    let o : IntersectObs :=
+      { centerDist := ← parseRat cd, circS := ← parseRat cs, circO := ← parseRat co,
+        scaledS := ← pBool ss, scaledO := ← pBool so, pointDist := ← parseRat pd,
+        inS := ← parseRat is_, inO := ← parseRat io, pcircS := ← parseRat ps, pcircO := ← parseRat po,
+        bbOverlap := ← pBool bb, collide := ← pBool col, convexS := ← pBool cvs, convexO := ← pBool cvo,
+        bodiesS := ← bs.toNat?, bodiesO := ← bo.toNat?, sHasO := ← pBool sho, oHasS := ← pBool ohs,
+        boolEmpty := ← pBool be }
+    let r := intersects intersectCfg o
+    pure s!"{bit r.1} {r.2.name}"
+  | _ => none
+
+def cont (ws : List String) : Option String := do
+  match ws with
+  | [bb, cv, mc, mv, ca, rh, oc, sd, rca, rc, om, de] =>
+    let o : ContainObs :=
+      { bbOverlap := ← pBool bb, convex := ← pBool cv, minCornerSd := ← parseRat mc,
+        minVertexSd := ← parseRat mv, candAvail := ← pBool ca, regionHasCand := ← pBool rh,
+        objCirc := ← parseRat oc, sdCand := ← parseRat sd, regCandAvail := ← pBool rca,
+        regCirc := ← parseRat rc, objMaxDist := ← parseRat om, diffEmpty := ← pBool de }
+    let r := containsObject containCfg o
+    pure s!"{bit r.1} {r.2.name}"
+  | _ => none
+
+def objI (ws : List String) : Option String := do
+  match ws with
+  | [sp, oo, op, opg, zs, zo, hs, ho, pi, va] =>
+    let o : ObjObs :=
+      { selfPlanar := ← pBool sp, otherIsObject := ← pBool oo, otherPlanar := ← pBool op,
+        otherIsPolygonal := ← pBool opg, zS := ← parseRat zs, zO := ← parseRat zo, hS := ← parseRat hs,
+        hO := ← parseRat ho, polyIntersects := ← pBool pi, volumeAnswer := ← pBool va }
+    let r := objectIntersects objCfg o
+    pure s!"{bit r.1} {r.2.name}"
+  | _ => none
+
+def geo (op : String) (l : List Rat) : Option String := do
+  match op with
+  | "orth" => let (a, _) ← box l; pure (bit a.orthogonal)
+  | "sep" =>
+    let (a, l) ← box l; let (b, l) ← box l; let (n, l) ← v3 l; let (al, l) ← v3 l; let (be, _) ← v3 l
+    pure (bit (sepCheck a b n al be))
+  | "wit" => let (a, l) ← box l; let (b, l) ← box l; let (x, _) ← v3 l; pure (bit (witnessCheck a b x))
+  | "dlo" =>
+    let (a, l) ← box l; let (b, l) ← box l; let (n, l) ← v3 l; let (al, l) ← v3 l; let (be, l) ← v3 l
+    match l with
+    | [g2] => pure (bit (distLowerCheck a b n al be g2))
+    | _ => none
+  | "dhi" =>
+    let (a, l) ← box l; let (b, l) ← box l; let (x, l) ← v3 l; let (y, l) ← v3 l
+    match l with
+    | [g2] => pure (bit (distUpperCheck a b x y g2))
+    | _ => none
+  | "cin" =>
+    let (a, l) ← box l; let (b, l) ← box l; let (b1, l) ← v3 l; let (b2, l) ← v3 l; let (b3, _) ← v3 l
+    pure (bit (containCheck a b b1 b2 b3))
+  | "nin" => let (a, l) ← box l; let (b, l) ← box l; let (x, _) ← v3 l; pure (bit (notContainCheck a b x))
+  | "has" => let (a, l) ← box l; let (x, _) ← v3 l; pure (bit (a.has x))
+  | "hsep" =>
+    match l with
+    | na :: nb :: l =>
+      let (va, l) ← v3s (← natOf na) l; let (vb, l) ← v3s (← natOf nb) l; let (n, l) ← v3 l
+      match l with
+      | [lo, hi] => pure (bit (hullSepCheck va vb n lo hi))
+      | _ => none
+    | _ => none
+  | "hwit" =>
+    match l with
+    | na :: nb :: l =>
+      let ka ← natOf na; let kb ← natOf nb
+      let (va, l) ← v3s ka l; let (vb, l) ← v3s kb l
+      let (wa, l) ← takeN ka l; let (wb, l) ← takeN kb l; let (x, _) ← v3 l
+      pure (bit (hullWitnessCheck va vb wa wb x))
+    | _ => none
+  | "hdlo" =>
+    match l with
+    | na :: nb :: l =>
+      let (va, l) ← v3s (← natOf na) l; let (vb, l) ← v3s (← natOf nb) l; let (n, l) ← v3 l
+      match l with
+      | [lo, hi, g2] => pure (bit (hullDistLowerCheck va vb n lo hi g2))
+      | _ => none
+    | _ => none
+  | "hdhi" =>
+    match l with
+    | na :: nb :: l =>
+      let ka ← natOf na; let kb ← natOf nb
+      let (va, l) ← v3s ka l; let (vb, l) ← v3s kb l
+      let (wa, l) ← takeN ka l; let (wb, l) ← takeN kb l; let (x, l) ← v3 l; let (y, l) ← v3 l
+      match l with
+      | [g2] => pure (bit (hullDistUpperCheck va vb wa wb x y g2))
+      | _ => none
+    | _ => none
+  | "hinb" =>
+    let (a, l) ← box l
+    match l with
+    | n :: l => let (v, _) ← v3s (← natOf n) l; pure (bit (hullInBoxCheck a v))
+    | _ => none
+  | "hout" =>   -- a hull point outside a box:  box, n, vertices, weights, x
+    let (a, l) ← box l
+    match l with
+    | n :: l =>
+      let k ← natOf n
+      let (v, l) ← v3s k l; let (w, l) ← takeN k l; let (x, _) ← v3 l
+      pure (bit (hullNotInUnionCheck [a] v w x))
+    | _ => none
+  | "circ" =>   -- fall-back circumradius² as computed by /repo's expression:  pos, n, vertices
+    let (p, l) ← v3 l
+    match l with
+    | n :: l => let (v, _) ← v3s (← natOf n) l; pure (showRat (fallbackCircSq fallbackCenter p v))
+    | _ => none
+  | _ => none
 
 def handle : List String → String
+  | "isect" :: ws => (isect ws).getD "bad-op"
+  | "cont" :: ws => (cont ws).getD "bad-op"
+  | ["foot", a, b, c] =>
+    match pBool a, pBool b, pBool c with
+    | some a, some b, some c =>
+      let r := footprintContains footCfg { convexObj := a, hasBounding := b, hasHull := c }
+      s!"{bit r.1} {r.2.name}"
+    | _, _, _ => "bad-op"
+  | ["planar", b, p, r] =>
+    match pBool b, parseRat p, parseRat r with
+    | some b, some p, some r => bit (isPlanarBox planarCfg b p r)
+    | _, _, _ => "bad-op"
+  | "obj" :: ws => (objI ws).getD "bad-op"
+  | ["mdist", sp, op, zs, zo, pd, vd] =>
+    match pBool sp, pBool op, parseRat zs, parseRat zo, parseRat pd, parseRat vd with
+    | some sp, some op, some zs, some zo, some pd, some vd =>
+      let r := minimumDistance distCfg
+        { selfPlanar := sp, otherPlanar := op, zS := zs, zO := zo, polyDist := pd, volumeDist := vd }
+      s!"{showRat r.1} {if r.2 then "fast" else "volume"}"
+    | _, _, _, _, _, _ => "bad-op"
+  | ["center"] => (match fallbackCenter with | .origin => "origin" | .position => "position")
+  | op :: ws =>
+    match pRats ws with
+    | some l => (geo op l).getD "bad-op"
+    | none => "bad-op"
   | _ => "bad-op"
 
 end Driver.C04
